@@ -18,6 +18,9 @@ SWEEP_TRUSTED = {
     "RF-IVL:line_address:raw_start[local]": "field is the out-parameter lofp_to_line() just wrote: 0 or 1",
     "RF-IVL:line_address:raw_count[local]": "field is the out-parameter lofp_to_line() just wrote: 0 or 1",
 }
+CLAUSE = CLAUSE + (" (RF-DEP, path-sensitive zero-ness valuations) in demux_ts_packet every copy that may bring ts_pes_todo to zero "
+                   "(PES packet complete) is followed by the header examination or an explicit discard before the collecting cursor is "
+                   "rewound for the next PES packet - also when the whole TS packet was already in the synchronisation buffer.")
 NOT_DECIDED = ("partition invariance as such (that feeding byte by byte yields identical frames), 'all but the first frame after "
                "damage are delivered', PES/TS header field semantics.")
 
@@ -56,6 +59,7 @@ def run(ctx, run):
     _reset_complete(ctx, run, fs)
     _skip_before_lookahead(ctx, run, P.need("demux_pes_packet", UNIT))
     _unit_lengths(ctx, run, P.need("extract_data_units", UNIT))
+    _complete_packet_examined(ctx, run, P.need("demux_ts_packet", UNIT))
     from .. import sweep
     sweep.run(ctx, run, [UNIT], SWEEP_TRUSTED, 20, 1)
 
@@ -564,3 +568,71 @@ def _unit_lengths(ctx, run, f):
                               "of the caller's buffer, read past it" % (lab[1], minlen, minlen, maxidx, maxidx - 1 - minlen),
                               "%s:%d" % (f.file, f.line), witness={"unit": lab[1], "min_length": minlen, "max_index": maxidx})
     run.floor("data unit cases with a length guard", n, 4)
+
+
+class _Examined:
+    """Marks for RF-DEP complete-packet-examined: U = line of the store that may have completed
+    the PES packet being collected and has not been followed by the header examination."""
+    def __init__(self, todo_key, validate, rewind_suffix):
+        self.todo, self.validate, self.rewind = todo_key, validate, rewind_suffix
+        self.n_dec = set()
+        self.n_val = set()
+        self.n_rew = set()
+
+    def store(self, f, i, key, op, rhs, val):
+        from .. import zeroness as zn
+        if key == self.todo:
+            if op in ("-=", "--"):
+                self.n_dec.add(i)
+                return zn.vset(val, ("U",), f.exprs[i]["line"])
+            # an explicit assignment (discard: `= 0`, new packet: `= length + 6`) settles it
+            return zn.vset(val, ("U",), None)
+        return val
+
+    def call(self, f, i, e, val):
+        from .. import zeroness as zn
+        if e.get("callee") == self.validate:
+            self.n_val.add(i)
+            return zn.vset(val, ("U",), None)
+        return val
+
+    def check(self, f, i, val):
+        from .. import zeroness as zn
+        for lhs, var, op, rhs in flow.stores(f, i):
+            if lhs is None or op != "=":
+                continue
+            if ex.pretty(f, lhs).endswith(self.rewind):
+                self.n_rew.add(i)
+                u = zn.vget(val, ("U",))
+                if u is not None and zn.vget(val, self.todo) != zn.N:
+                    return u
+        return None
+
+
+def _complete_packet_examined(ctx, run, f):
+    """RF-DEP: in the TS path a PES packet is collected TS packet by TS packet in pes_buffer;
+    ts_pes_todo counts the bytes still missing.  Whenever a copy may have brought it to zero the
+    packet's header must be examined (valid_vbi_pes_packet_header) before the collecting cursor
+    is rewound for the next PES packet - on every path, including the one on which the whole TS
+    packet was already in the synchronisation buffer and nothing is left to consume."""
+    from .. import zeroness as zn
+    run.touch(f)
+    spec = _Examined(("f", "ts_pes_todo"), "valid_vbi_pes_packet_header", "->ts_pes_bp")
+    an = zn.Analysis(ctx, f, {"->ts_pes_todo": ("f", "ts_pes_todo"), "->ts_wrap.consume": ("f", "ts_wrap.consume")}, spec).run()
+    if not spec.n_dec or not spec.n_val or not spec.n_rew:
+        raise AnalysisBroken("demux_ts_packet: PES collection anchors not found (decrements %d, examinations %d, rewinds %d)"
+                             % (len(spec.n_dec), len(spec.n_val), len(spec.n_rew)))
+    run.floor("stores that may complete the collected PES packet", len(spec.n_dec), 3)
+    key = "RF-DEP:demux_ts_packet:complete-packet-examined"
+    if an.violations:
+        for i, line, val in an.violations:
+            run.violation("RF-DEP", key + "@%d" % line,
+                          "the copy at line %d may bring ts_pes_todo to zero (PES packet complete), and a path leads from there "
+                          "to the start of the next PES packet (`%s`) without the completed packet's header ever being examined: "
+                          "that packet - a whole frame - is silently dropped (a PES packet which fits one TS packet, first after "
+                          "synchronisation)" % (line, ex.pretty(f, i)[:50]), ex.loc(f, i),
+                          witness={"completing_store_line": line, "state": sorted(map(str, val))})
+    else:
+        run.holds("RF-DEP", key, "%d stores may complete the collected PES packet; on every path (zero-ness valuations of ts_pes_todo, "
+                  "ts_wrap.consume and the locals %s) the header examination or an explicit discard comes before the cursor is "
+                  "rewound for the next packet" % (len(spec.n_dec), sorted(an.locals)), "%s:%d" % (f.file, f.line))
